@@ -1064,9 +1064,11 @@ class slice(Stream):
 
     def update(self, x, who=None, metadata=None):
         ret = None
-        if self.state >= self.star and (self.state - self.star) % self.step == 0:
-            ret = self._emit(x, metadata=metadata)
+        # advance the position before emitting: a feedback edge can re-enter this node
+        position = self.state
         self.state += 1
+        if position >= self.star and (position - self.star) % self.step == 0:
+            ret = self._emit(x, metadata=metadata)
         self._check_end()
         return ret
 
